@@ -7,6 +7,7 @@ import (
 	"go/types"
 	"sort"
 	"strings"
+	"sync"
 
 	"jetverif/an"
 )
@@ -20,7 +21,49 @@ const (
 	releaseScopeFn = "(*jet.Runtime).releaseScope"
 )
 
-var pairedFields = []string{"Runtime.context", "Runtime.content", "escapeeWriter.Writer"}
+// pairedFields: the runtime state that constructs change for the duration of a body.  The three
+// known ones are always included; any other field of Runtime / escapeeWriter that evaluator code
+// stores to is discovered and held to the same discipline (saved before it is changed, restored
+// afterwards; ++/-- must balance), so a new piece of per-execution state cannot silently escape it.
+var pairedCache sync.Map // *an.Prog → []string
+
+func pairedFieldsFor(p *an.Prog) []string {
+	if v, ok := pairedCache.Load(p); ok {
+		return v.([]string)
+	}
+	base := map[string]bool{"Runtime.context": true, "Runtime.content": true, "escapeeWriter.Writer": true}
+	skip := map[string]bool{"Runtime.scope": true, "Runtime.escapeeWriter": true, "escapeeWriter.set": true}
+	found := map[string]bool{}
+	eval := p.Eval()
+	for _, f := range p.Fns {
+		if f.Pkg != p.Jet || f.Body == nil || !eval[f] {
+			continue
+		}
+		switch f.Root().Name {
+		case "(*Template).Execute", "(*Runtime).recover":
+			continue
+		}
+		info := f.Info()
+		an.InspectOwn(f, func(n ast.Node) bool {
+			an.Assigns(n, func(lhs, _ ast.Expr, _ token.Token) {
+				fk := p.FieldKey(info, lhs)
+				if (strings.HasPrefix(fk, "Runtime.") || strings.HasPrefix(fk, "escapeeWriter.")) && !skip[fk] && !base[fk] {
+					found[fk] = true
+				}
+			})
+			return true
+		})
+	}
+	out := []string{"Runtime.context", "Runtime.content", "escapeeWriter.Writer"}
+	var extra []string
+	for k := range found {
+		extra = append(extra, k)
+	}
+	sort.Strings(extra)
+	res := append(out, extra...)
+	pairedCache.Store(p, res)
+	return res
+}
 
 // pairResult is what exploring one function for pairing yields.
 type pairResult struct {
@@ -78,6 +121,7 @@ func isRestoreSource(p *an.Prog, f *an.Fn, e ast.Expr, field string) (types.Obje
 // explorePairs runs the pairing exploration of one function.
 func explorePairs(p *an.Prog, f *an.Fn) *pairResult {
 	info := f.Info()
+	pairedFields := pairedFieldsFor(p)
 	res := &pairResult{fn: f, fieldBad: map[string]pairFinding{}, fieldSeen: map[string]bool{}, callDepth: map[*ast.CallExpr]int{},
 		callDpop: map[*ast.CallExpr]int{}, callRegs: map[*ast.CallExpr][]map[string]string{},
 		pushSites: map[token.Pos]bool{}, popSites: map[token.Pos]bool{}, plainRestore: map[string]token.Pos{}}
@@ -161,6 +205,24 @@ func explorePairs(p *an.Prog, f *an.Fn) *pairResult {
 					continue
 				}
 				res.fieldSeen[pf] = true
+				if inc, isInc := stmt.(*ast.IncDecStmt); isInc {
+					// a counter: ++ and -- must balance
+					d := 1
+					if inc.Tok == token.DEC {
+						d = -1
+					}
+					n := st.Int("cnt:"+pf) + d
+					if n > 3 {
+						n = 3
+					}
+					st.SetInt("cnt:"+pf, n)
+					if n == 0 {
+						st.Set("cur:"+pf, "")
+					} else {
+						st.Set("cur:"+pf, fmt.Sprintf("counter%+d@%s", n, p.RelPos(lhs.Pos())))
+					}
+					continue
+				}
 				if rhs != nil {
 					if o, ok := isRestoreSource(p, f, rhs, pf); ok {
 						// restoring store: from the local saved on this path, or from a captured save of the enclosing function
